@@ -181,8 +181,10 @@ def run(ctx):
               "Require Import V.C13.Model.\nOpen Scope N_scope.\n"
               "Fixpoint l_eqb (a b : list N) := match a, b with [], [] => true | x::a', y::b' => N.eqb x y && l_eqb a' b' "
               "| _, _ => false end.\n"
+              "(* model ErrIndex = incomplete path (framer/frame/actor without a name part): the real method raised "
+              "IndexError before fix C14-incomplete-relative-path and raises ResolveError after it; both accepted *)\n"
               "Definition r_eqb (a b : res (list N)) := match a, b with Ok x, Ok y => l_eqb x y | ErrResolve, ErrResolve "
-              "=> true | ErrIndex, ErrIndex => true | _, _ => false end.\n")
+              "=> true | ErrIndex, ErrIndex => true | ErrIndex, ErrResolve => true | _, _ => false end.\n")
     bad = ctx.coq_cases(header, "r_eqb", cases)
     for i in bad[:5]:
         c, p, r = metas[i]
